@@ -6,7 +6,8 @@ PROP = {'rule': 'rapid-generated cases. cacheHistory: state machine (~40 steps) 
          'through the informer indexer, Unreserve also after the API delete), assumePod/forgetPods and the global handler\'s '
          'DeleteReservation (before, after or delayed behind the plugin handler); reservation updates also narrow/widen/remove the '
          'restricted-resources option and resize status.allocatable to another dimension set, the oracle masks to the CURRENT counted '
-         'dimensions; non-trivial = history contains assign -> reservation becomes unavailable/unmatchable -> unassign, '
+         'dimensions; every snapshot the cache hands out (getReservationInfoByUID) is kept for three operations and must keep reporting the '
+         'assigned pods and allocated amounts the model gave it when taken; non-trivial = history contains assign -> reservation becomes unavailable/unmatchable -> unassign, '
          'or a reservation deleted while holding pods. fit: (reserved dims incl. optional pods, policy, restricted option, inner reserved, '
          '0-3 pods assigned through AddAssignedPod, preemptible amounts, request aimed at the exact boundary); non-trivial = some counted '
          'dimension requested within 1 unit of the remaining room. nominate: 1-3 reservations on 2 nodes, 2-5 scheduling cycles '
